@@ -298,6 +298,14 @@ def pathological(tier):
         fams.append(("numref-hex*%d" % nd, "x&#x" + "F" * nd + ";y"))
         fams.append(("numref-attr*%d" % nd, "<a b='&#" + "1" * nd + "' c=&#x" + "0" * nd + "41>"))
     fams.append(("longtag", "<" + "a" * 200000 + ">"))
+    # byte input whose <meta> pragma is malformed, inside and beyond the 1024-byte prescan window (tree construction then
+    # runs its own content= parser on it)
+    for pad in (0, 1100):
+        for c in ("text/html; charset='utf-8", "text/html; charset=\"koi8-r", "charset= ", "charset=", "charset", "charset  =", "charset='",
+                  "charset=\t\n", ";charset=x'y\"", "charset=utf-8 charset='"):
+            q = "'" if '"' in c else '"'
+            fams.append(("meta-pragma-malformed", ("<!--" + "x" * pad + "--><meta http-equiv=content-type content=%s%s%s>\xe9" % (q, c, q)).encode("latin-1")))
+            fams.append(("meta-pragma-malformed", ("<!--" + "x" * pad + "--><meta content=%s%s%s http-equiv=Content-Type><p>" % (q, c, q)).encode("latin-1")))
     fams.append(("longattr", "<a b='" + "c" * 200000 + "'>"))
     fams.append(("longcomment", "<!--" + "-" * 200000))
     return fams
